@@ -1423,6 +1423,15 @@ impl Server {
     /// Perform any necessary cleanup before putting the server
     /// connection back in the pool
     pub async fn checkin_cleanup(&mut self) -> Result<(), Error> {
+        // The client is gone in the middle of COPY FROM STDIN: the server is waiting for copy
+        // data and would take whatever we send now for the end of the COPY, without running it.
+        // There is no cleaning this connection, it has to go.
+        if self.in_copy_mode() {
+            warn!(target: "pgcat::server::cleanup", "Server returned while still in copy-mode");
+            self.mark_bad("returned in copy mode");
+            return Ok(());
+        }
+
         // An extended protocol COPY has ended but the client is gone without the Sync that
         // completes it: the server is still inside that statement's implicit transaction.
         if self.awaiting_sync {
@@ -1473,10 +1482,6 @@ impl Server {
         }
 
         self.close_evicted_prepared_statements().await?;
-
-        if self.in_copy_mode() {
-            warn!(target: "pgcat::server::cleanup", "Server returned while still in copy-mode");
-        }
 
         Ok(())
     }
